@@ -1,3 +1,4 @@
+import Cicada.Model.Prompt
 import Cicada.Model.Script
 import Cicada.Lemmas.C01
 /-!
@@ -101,5 +102,25 @@ theorem C16_finding_escaped_semicolon : expandArgs [] "g\\;h".toList = "g;h".toL
 
 /-! ### non-vacuity -/
 example : expandArgs ["s".toList, "x".toList] "prog 'a;b' \"c && d\" '$1'".toList = "prog 'a;b' \"c && d\" '$1'".toList := by decide
+
+end Cicada.C16
+
+namespace Cicada.C16
+open Cicada
+
+/-- **the prompt is `-c` for every line without `!!`**: the only rewriting the interactive entry point applies
+(`extend_bangbang`) hands such a line on character for character, whatever was run before -/
+theorem C16_prompt_same (prev line : Str) (h : hasInfix ['!', '!'] line = false) : extendBangbang prev line = line := by
+  simp [extendBangbang, h]
+
+/-- … and so is the first line of a session, `!!` or not -/
+theorem C16_prompt_first (line : Str) : extendBangbang [] line = line := by
+  unfold extendBangbang
+  split
+  · rfl
+  · simp
+
+/-- non-vacuity: a line with a single `!` (no `!!`) and awkward quoting is within the hypothesis -/
+example : hasInfix ['!', '!'] "argv \"say \\\"hi\\\"\" done!".toList = false := by decide
 
 end Cicada.C16
